@@ -22,7 +22,7 @@ var c09Floats = []float64{0, 1.5, -2.5, 1e300}
 var c09ConcreteStrings = false
 
 func symData(name string, depth int) any {
-	nk := 13
+	nk := 16
 	if depth <= 0 {
 		nk = 9
 	}
@@ -54,8 +54,14 @@ func symData(name string, depth int) any {
 		return map[string]any{"k": symData(name+".k", depth-1), "": 1}
 	case 11:
 		return []any{}
+	case 12:
+		return map[string]any{"k": func() {}}
+	case 13:
+		return [2]int{1, 2}
+	case 14:
+		return []any{[0]string{}, complex(1, 2)}
 	}
-	return map[string]any{"k": func() {}}
+	return struct{ P *[3]int }{&[3]int{1, 2, 3}}
 }
 
 func symBytesAny(name string, n int) string {
